@@ -38,6 +38,7 @@ FINDINGS = {
     "teardown-outlives-shutdown": "rfbShutdownServer does not wait for client threads that are already tearing themselves down; they may still run when the application calls rfbScreenCleanup",
     "copyrect-inflight-race": "rfbDoCopyRect/rfbScheduleCopyRect while an output thread is between taking its update region and sending it: the client copies source pixels it has already received in their new state; its picture stays wrong",
     "stale-descriptor-write": "rfbWriteExact reads cl->sock before it takes outputMutex and clientInput closes the socket without that mutex: an application-thread writer (rfbSendBell, rfbSendServerCutText ...) that holds a reference on a leaving client writes to the descriptor number after it was closed; if a new connection arrived in between the bytes go into that client's socket or notify pipe (which makes its input thread shut the innocent client down)",
+    "newfb-latecomer": "a client that connects while the application is inside rfbNewFramebuffer is not among the clients locked and refreshed by that call: if its first update was taken from the old framebuffer it keeps showing the old contents until something else marks the screen (and its output thread may still read the old buffer when the application releases it)",
     "softcursor-pollutes-others": "a client without cursor-shape updates has the cursor drawn into the shared framebuffer while it sends; other clients' output threads capture those pixels",
 }
 
@@ -363,6 +364,18 @@ def ti_role_app(evs, what):
         any(e.split()[0] == "A" and e.split()[1:] == ["unlock", "O" + c] for e in evs[closed[0]:])
 
 
+def during_newfb(evs, cid):
+    """client `cid` was created / sent its first update between `A call newfb` and the matching `A ret newfb`"""
+    wins, start = [], None
+    for i, e in enumerate(evs):
+        if e.startswith("A call newfb"): start = i
+        elif e.startswith("A ret newfb") and start is not None: wins.append((start, i)); start = None
+    if start is not None: wins.append((start, len(evs)))
+    marks = [i for i, e in enumerate(evs) if e.split()[1:] in (["newcl", cid], ["alloc", cid]) or e.split() == ["O" + cid, "start"]
+             or e.split()[1:] == ["create", "I" + cid] or e.split()[1:] == ["create", "O" + cid]]
+    return any(a < i < b for i in marks for a, b in wins)
+
+
 def analyse(script, rc, out, err):
     """-> (list of problems: dict(what, finding|None, detail), stats dict)"""
     evs, res = parse(out)
@@ -464,6 +477,10 @@ def analyse(script, rc, out, err):
             add("mutex/thread misuse: " + what, fin, "\n".join(threads))
         elif t[0] == "sanitizer-abort" and not a:
             add("sanitizer abort without report", None, err[-1500:])
+        elif t[0] == "fd-leak":
+            # threads that are still alive keep their descriptors: reported through the thread oracle
+            if not any(r.startswith("threads ") and "lib_alive=0" not in r for r in res):
+                add("descriptors are still open after rfbShutdownServer + rfbScreenCleanup: " + " ".join(t[1:]), None, None)
         elif t[0] == "unserved":
             add("a connection was accepted at socket level but never served: " + " ".join(t[1:]), None, None)
         elif t[0] in ("harness-error", "peer-stuck", "gone-unknown-client"):
@@ -480,7 +497,8 @@ def analyse(script, rc, out, err):
             m = re.search(r"ndiff=(\d+) first=(-?\d+),(-?\d+) last=(-?\d+),(-?\d+)", dl[0]) if dl else None
             if m:
                 nd, fx, fy, lx, ly = map(int, m.groups())
-                if has_soft and lx < 5 and ly < 4: fin = "softcursor-pollutes-others"
+                if during_newfb(evs, t[2].split("=")[1]): fin = "newfb-latecomer"
+                elif has_soft and lx < 5 and ly < 4: fin = "softcursor-pollutes-others"
                 elif not (guards & 4):
                     # inside the destination of a copy whose memmove ran while an output thread was busy
                     for o in ops:
